@@ -209,11 +209,17 @@ pub const GROUPS: &[(&str, &[&str])] = &[
             "exec.panic[vibesql-storage/src/table/normalization.rs|byte index  is not a char boundary; it is inside '' (bytes .]",
         ],
     ),
-    ("view_named_like_table", &["abort.stack_overflow.exec.probe[CREATE_VIEW]"]),
+    ("view_named_like_table", &["abort_or_hang.exec.probe.view_named_like_table"]),
     ("double_division", &["exec.panic[vibesql-executor/src/evaluator/operators/arithmetic/division.rs|internal error: entered unreachable code: Unexpected combina]"]),
     ("format_precision", &["exec.panic[vibesql-executor/src/evaluator/functions/numeric/decimal.rs|Formatting argument out of range]"]),
     ("substring_multibyte", &["exec.panic[vibesql-executor/src/evaluator/functions/string/substring.rs|byte index  is not a char boundary; it is inside '' (bytes .]"]),
+    ("trim_empty_removal", &["hang.cpu.exec.trim_empty_removal"]),
+    ("ntile_empty", &["exec.panic[vibesql-executor/src/select/window/evaluation.rs|index out of bounds: the len is  but the index is]"]),
 ];
+
+/// Groups whose trigger is excluded in ALL workers while a signature of the group is open (not
+/// only in the 80 % avoid-mode workers): every hit costs the full CPU budget of the watchdog.
+pub const ALWAYS_EXCLUDED: &[&str] = &["trim_empty_removal", "view_named_like_table"];
 
 /// (group, features that must all be present): the wild statement is regenerated while any
 /// signature of the group is open and avoided.
@@ -235,10 +241,13 @@ pub const GROUP_TRIGGERS: &[(&str, &[&str])] = &[
     ("substring_multibyte", &["fn:SUBSTRING", "world:nonascii"]),
     ("substring_multibyte", &["fn:SUBSTR", "lit:nonascii"]),
     ("substring_multibyte", &["fn:SUBSTR", "world:nonascii"]),
+    ("trim_empty_removal", &["trim_empty_removal"]),
+    ("ntile_empty", &["window:NTILE"]),
 ];
 
 pub fn avoiding_group(cfg: &GenCfg, group: &str) -> bool {
-    GROUPS.iter().any(|(g, sigs)| *g == group && sigs.iter().any(|s| cfg.avoiding(s)))
+    let always = ALWAYS_EXCLUDED.contains(&group);
+    GROUPS.iter().any(|(g, sigs)| *g == group && sigs.iter().any(|s| cfg.avoiding(s) || (always && cfg.known_open.iter().any(|k| k == s))))
 }
 
 // -------------------------------------------------------------------------------------------
@@ -356,6 +365,7 @@ impl<'a> W<'a> {
                 format!("({} {})", op, self.expr(t, scope, d))
             }
             4 => self.func(t, scope, d),
+            _ if std::env::var("VERIF_C24_FUNC").is_ok() => self.func(t, scope, d),
             5 => {
                 self.feat("cast");
                 format!("CAST({} AS {})", self.expr(t, scope, d), self.ty(t))
@@ -410,7 +420,12 @@ impl<'a> W<'a> {
                     }
                     1 => {
                         self.feat("fn:TRIM");
-                        format!("TRIM({} {} FROM {})", pk(t, &["BOTH", "LEADING", "TRAILING"]), self.strish(t, scope), self.strish(t, scope))
+                        let removal = self.strish(t, scope);
+                        if !removal.starts_with('\'') || removal == "''" {
+                            // empty removal string (literal, or possibly through a column)
+                            self.feat("trim_empty_removal");
+                        }
+                        format!("TRIM({} {} FROM {})", pk(t, &["BOTH", "LEADING", "TRAILING"]), removal, self.strish(t, scope))
                     }
                     2 => {
                         self.feat("fn:POSITION");
@@ -422,9 +437,11 @@ impl<'a> W<'a> {
                     }
                     _ => {
                         self.feat("window");
+                        let wf = pk(t, &["SUM", "ROW_NUMBER", "RANK", "LAG", "LEAD", "COUNT", "AVG", "MIN", "FIRST_VALUE", "NTILE", "DENSE_RANK", "LAST_VALUE", "MAX"]);
+                        self.feat(&format!("window:{}", wf));
                         format!(
                             "{}({}) OVER ({}ORDER BY {}{})",
-                            pk(t, &["SUM", "ROW_NUMBER", "RANK", "LAG", "LEAD", "COUNT", "AVG", "MIN", "FIRST_VALUE", "NTILE"]),
+                            wf,
                             if t.chance(1, 3) { String::new() } else { self.expr(t, scope, 0) },
                             if t.chance(1, 2) { format!("PARTITION BY {} ", self.expr(t, scope, 0)) } else { String::new() },
                             self.expr(t, scope, 0),
@@ -460,7 +477,14 @@ impl<'a> W<'a> {
         }
     }
     fn func(&mut self, t: &mut Tape, scope: &[&'a Tab], d: u32) -> String {
-        let (name, arity) = *t.pick(FUNCS);
+        let (mut name, mut arity) = *t.pick(FUNCS);
+        // dev aid: VERIF_C24_FUNC=NAME forces the function
+        if let Ok(f) = std::env::var("VERIF_C24_FUNC") {
+            if let Some(x) = FUNCS.iter().find(|x| x.0 == f) {
+                name = x.0;
+                arity = x.1;
+            }
+        }
         self.feat(&format!("fn:{}", name));
         let n = match t.weighted(&[8, 1, 1]) {
             0 => arity,
@@ -836,6 +860,38 @@ fn setup_sql(case: &Case) -> Vec<String> {
 // -------------------------------------------------------------------------------------------
 // oracle
 
+pub const CPU_BUDGET_MS: u64 = 5000;
+
+/// function-like words of a statement (part of hang signatures), at most three, sorted
+fn sql_functions(sql: &str) -> String {
+    let mut v: Vec<String> = crate::sqltext::tokenize(sql)
+        .iter()
+        .map(|t| t.text.to_ascii_uppercase())
+        .filter(|w| FUNCS.iter().any(|f| f.0 == w) || ["TRIM", "POSITION", "OVER", "LIKE", "RECURSIVE", "INTERVAL"].contains(&w.as_str()))
+        .collect();
+    v.sort();
+    v.dedup();
+    v.truncate(3);
+    v.join(",")
+}
+
+/// taught hang trigger, else the function list
+fn hang_class(sql: &str) -> String {
+    let toks: Vec<String> = crate::sqltext::tokenize(sql).iter().map(|t| t.text.to_ascii_uppercase()).collect();
+    for i in 0..toks.len() {
+        if toks[i] == "TRIM" && toks.get(i + 1).map(|x| x == "(").unwrap_or(false) {
+            let mut j = i + 2;
+            if toks.get(j).map(|x| ["BOTH", "LEADING", "TRAILING"].contains(&x.as_str())).unwrap_or(false) {
+                j += 1;
+            }
+            if toks.get(j).map(|x| x == "''").unwrap_or(false) && toks.get(j + 1).map(|x| x == "FROM").unwrap_or(false) {
+                return "trim_empty_removal".into();
+            }
+        }
+    }
+    sql_functions(sql)
+}
+
 pub fn psig(desc: &str) -> String {
     crate::c23::psig(desc)
 }
@@ -1106,6 +1162,35 @@ const EXTREME_FEATS: &[&str] = &[
     "arity:function", "arity:insert", "arity:subquery_columns", "insert_untyped", "update_untyped", "cast", "index_range", "exact", "set_op", "order_by_position", "interval_arith", "agg_extreme",
 ];
 
+pub const VIEW_SHADOW_SIG: &str = "abort_or_hang.exec.probe.view_named_like_table";
+
+/// answers of the SIGSEGV / CPU-watchdog handlers for the three phases of a case
+fn arm_lines(case: &Case, obs: &Obs, view_shadows_table: bool) {
+    if !segv::installed() {
+        return;
+    }
+    let wsql = case.wild.sql();
+    let wkind = stmt_kind(&wsql);
+    let mk = |phase: &str| {
+        let sig = if phase == "probe" && view_shadows_table { VIEW_SHADOW_SIG.to_string() } else { format!("abort.stack_overflow.exec.{}[{}]", phase, if phase == "setup" { "history" } else { wkind.as_str() }) };
+        let v = Verdict::fail(sig, format!("stack overflow on the {} MiB main-thread stack while executing ({}) — wild statement: {}", segv::stack_limit() >> 20, phase, vcore::runner::truncate(&wsql, 3000)));
+        serde_json::to_string(&(v, obs)).unwrap_or_default()
+    };
+    let fns = hang_class(&wsql);
+    let hang = |phase: &str| {
+        let sig = if phase == "probe" && view_shadows_table {
+            VIEW_SHADOW_SIG.to_string()
+        } else if phase == "wild" && fns == "trim_empty_removal" {
+            "hang.cpu.exec.trim_empty_removal".to_string()
+        } else {
+            format!("hang.cpu.exec.{}[{}{}]", phase, if phase == "setup" { "history" } else { wkind.as_str() }, if phase == "wild" && !fns.is_empty() { format!("|{}", fns) } else { String::new() })
+        };
+        let v = Verdict::fail(sig, format!("no result after {} s of CPU time ({}) on tables of at most a dozen rows — wild statement: {}", CPU_BUDGET_MS / 1000, phase, vcore::runner::truncate(&wsql, 3000)));
+        serde_json::to_string(&(v, obs)).unwrap_or_default()
+    };
+    segv::arm_with_watchdog(&[mk("setup"), mk("wild"), mk("probe")], &[hang("setup"), hang("wild"), hang("probe")], CPU_BUDGET_MS);
+}
+
 impl C24 {
     pub fn run_case(&self, case: &Case, obs: &mut Obs) -> Verdict {
         obs.excluded = case.excluded as u64;
@@ -1115,15 +1200,7 @@ impl C24 {
             }
         }
         let mut db = Database::new();
-        // stack overflow inside the executor gets its own signature
-        if segv::installed() {
-            let wkind = stmt_kind(&case.wild.sql());
-            let mk = |phase: &str| {
-                let v = Verdict::fail(format!("abort.stack_overflow.exec.{}[{}]", phase, if phase == "setup" { "history" } else { wkind.as_str() }), format!("stack overflow on the {} MiB main-thread stack while executing ({}) — wild statement: {}", segv::stack_limit() >> 20, phase, vcore::runner::truncate(&case.wild.sql(), 3000)));
-                serde_json::to_string(&(v, &*obs)).unwrap_or_default()
-            };
-            segv::arm(&[mk("setup"), mk("wild"), mk("probe")]);
-        }
+        arm_lines(case, obs, false);
         segv::set_phase(0);
         let setup = setup_sql(case);
         let mut setup_err = 0;
@@ -1142,9 +1219,17 @@ impl C24 {
         if setup_err > 0 {
             obs.class("setup_some_statements_rejected");
         }
-        segv::set_phase(1);
         let sql = case.wild.sql();
         let kind = stmt_kind(&sql);
+        // taught trigger: a view named like an existing table (unbounded expansion afterwards)
+        let view_shadows_table = kind == "CREATE_VIEW" && {
+            let toks = crate::sqltext::tokenize(&sql);
+            let name = toks.iter().map(|t| t.text.to_ascii_uppercase()).find(|w| !["CREATE", "OR", "REPLACE", "VIEW"].contains(&w.as_str())).unwrap_or_default();
+            db.list_tables().iter().any(|n| n.rsplit('.').next().map(|x| x.eq_ignore_ascii_case(&name)).unwrap_or(false))
+        };
+        // fresh CPU budget and (now that the state is known) final answers for wild + probe
+        arm_lines(case, obs, view_shadows_table);
+        segv::set_phase(1);
         obs.class(&format!("wild:{}", kind));
         let extreme = case.feats.iter().any(|f| EXTREME_FEATS.contains(&f.as_str()));
         if extreme {
@@ -1227,7 +1312,7 @@ impl Check for C24 {
             "build profile `verif`: overflow checks and debug assertions are ON, so an unchecked integer overflow shows up as a panic here; a plain release build would continue with the wrapped value (stated in each finding)".into(),
             "statements go through vcore::engine::exec_stmt (the dispatcher mirrored from the repo's CLI/server/sqllogictest adapters) on the worker's main thread (8 MiB stack)".into(),
             "exactness model reads the stored integer values through the storage API (Table::scan), not through the executor under test".into(),
-            "watchdog: 20 s per case, confirmed twice with 40 s".into(),
+            "watchdog: 5 s of CPU time per case inside the worker (ITIMER_PROF => hang.cpu.*), plus vcore's wall-clock watchdog (30 s, confirmed twice with 60 s => hang)".into(),
         ]
     }
     fn cases(&self, tier: Tier) -> u64 {
@@ -1243,7 +1328,7 @@ impl Check for C24 {
         true
     }
     fn timeout_s(&self) -> u64 {
-        20
+        30
     }
     fn floors(&self) -> Vec<(&'static str, f64)> {
         vec![("reached_execution", 0.5), ("has_extreme_or_type_error", 0.4), ("exact:checked", 0.03)]
@@ -1306,7 +1391,9 @@ impl Check for C24 {
             if world_nonascii {
                 w.feat("world:nonascii");
             }
-            let wild = match t.weighted(&[6, 3, 3, 2, 3, 3, 2]) {
+            let forced: Option<usize> = std::env::var("VERIF_C24_WILD").ok().and_then(|s| s.parse().ok());
+            let pick = t.weighted(&[6, 3, 3, 2, 3, 3, 2]);
+            let wild = match forced.unwrap_or(pick) {
                 0 => Wild::Sql(w.select(t)),
                 1 => Wild::Sql(w.index_range(t)),
                 2 => Wild::Sql(w.dml(t)),
@@ -1343,12 +1430,12 @@ impl Check for C24 {
                 }
             };
             let feats = w.feats;
-            if cfg.avoid_known && triggers_hit(cfg, &feats) && tries < 8 {
+            if triggers_hit(cfg, &feats) && tries < 8 {
                 tries += 1;
                 excluded += 1;
                 continue;
             }
-            if cfg.avoid_known && triggers_hit(cfg, &feats) {
+            if triggers_hit(cfg, &feats) {
                 break (Wild::Sql("SELECT 1".into()), vec!["gave_up_avoiding".to_string()]);
             }
             break (wild, feats);
